@@ -118,6 +118,8 @@ struct RawComparer : ComparerBase {
   CompareResult visit(RawString lhs) {
     size_t size = rhs_.size() < lhs.size() ? rhs_.size() : lhs.size();
     int n = memcmp(lhs.data(), rhs_.data(), size);
+    if (n == 0 && lhs.size() != rhs_.size())
+      n = lhs.size() < rhs_.size() ? -1 : 1;
     if (n < 0)
       return COMPARE_RESULT_LESS;
     else if (n > 0)
